@@ -40,9 +40,11 @@ def main():
             vl = [l for l in out.splitlines() if l.startswith('VIOLATION')]
             res['checks'][p] = {'check_exit': rc, 'wall_s': round(time.time() - t0, 1), 'violation_lines': sorted(set(vl))[:5],
                                 'undecided_lines': [l[:220] for l in out.splitlines() if l.startswith('UNDECIDED')][:5],
+                                'stale_lines': [l[:220] for l in out.splitlines() if l.startswith('STALE-CONTRACT')][:5],
                                 'summary_line': out.strip().splitlines()[-1][:200] if out.strip() else ''}
         res['false_alarm'] = any(r['check_exit'] == 1 for r in res['checks'].values())
         res['undecided'] = any(r['check_exit'] == 2 for r in res['checks'].values())
+        res['stale'] = any(r['stale_lines'] for r in res['checks'].values())
     finally:
         sh('git -C /repo worktree remove --force %s' % wt)
         shutil.rmtree(wt, ignore_errors=True)
